@@ -23,10 +23,13 @@ impl<T: VecValue, SI: VecIndex> AggFold<Option<T>, SI, SI, T> for Sparse {
 
         (from..to).for_each(|idx| {
             let current_first = mapping[idx].to_usize();
+            // A successor that starts beyond the source ends this range at the source's end,
+            // exactly like the open-ended last range.
             let next_first = mapping
                 .get(idx + 1)
                 .map(|h| h.to_usize())
-                .unwrap_or(source_len);
+                .unwrap_or(source_len)
+                .min(source_len);
 
             if next_first == 0 || current_first >= next_first {
                 slot_map.push(None);
@@ -55,7 +58,8 @@ impl<T: VecValue, SI: VecIndex> AggFold<Option<T>, SI, SI, T> for Sparse {
         let next_first = mapping
             .get(index + 1)
             .map(|h| h.to_usize())
-            .unwrap_or(source_len);
+            .unwrap_or(source_len)
+            .min(source_len);
 
         if next_first == 0 || current_first >= next_first {
             return Some(None);
